@@ -4,7 +4,9 @@ mod common;
 mod completion;
 mod direct;
 mod ed;
+mod hint;
 mod hist;
+mod hl;
 mod histfile;
 mod keys;
 mod lb;
@@ -33,6 +35,8 @@ fn exec_line(req: &str) -> String {
     let f: Vec<&str> = req.split(' ').collect();
     let r = catch_unwind(AssertUnwindSafe(|| match f.first().copied() {
         Some("hist") => hist::exec(&f[1..]),
+        Some("hint") => hint::exec(&f[1..]),
+        Some("hl") => hl::exec(&f[1..]),
         Some("hf") => histfile::exec(&f[1..]),
         Some("sess") => sessions::exec(&f[1..]),
         Some("sessx") => sessions::exec_x(&f[1..]),
@@ -78,6 +82,7 @@ fn main() {
     let proto_out = unsafe { std::fs::File::from_raw_fd(out_fd) };
     let mut out = std::io::BufWriter::new(proto_out);
     let mut ci = CharInfoEmitter::default();
+    let noexec = std::env::var_os("RLH_NOEXEC").is_some();
     let mut emit = |req: String, out: &mut dyn Write| {
         if req.starts_with("hf ") || req.starts_with("sess ") {
             // unescaping a history file produces line feed / carriage return / backslash even
@@ -89,7 +94,8 @@ fn main() {
         for l in ci.lines_for(&req) {
             writeln!(out, "{}", l).unwrap();
         }
-        let obs = exec_line(&req);
+        // RLH_NOEXEC=1: print the requests only (to look at what a generator produces)
+        let obs = if noexec { "-".to_string() } else { exec_line(&req) };
         writeln!(out, "{}\t{}", req, obs).unwrap();
     };
     match args.get(1).map(String::as_str) {
@@ -128,6 +134,8 @@ fn main() {
             };
             match target.as_str() {
                 "hist" => hist::gen(&ctx, &mut sink),
+                "hint" => hint::gen(&ctx, &mut sink),
+                "hl" => hl::gen(&ctx, &mut sink),
                 "hf10" => histfile::gen10(&ctx, &mut sink),
                 "sess" => sessions::gen(&ctx, &mut sink),
                 "sessx" => sessions::gen_x(&ctx, &mut sink),
